@@ -134,7 +134,7 @@ def c15(tier):
                     if not satisfiable(f, vis if vis is not None else ev, ev):
                         continue
                     cfg = Config(pre + [(f, p)])
-                    decls.append((f, vis, custom, ev, cfg.attr_lines()[0], name, sname, BODIES[g]))
+                    decls.append((f, vis, custom, ev, cfg.attr_text(), name, sname, BODIES[g]))
     # range follows the iterator mode: its arms differ per mode as well
     for g in (False, True):
         for im in ["next_and_back", "table"] + (["range"] if g else []):
@@ -144,7 +144,7 @@ def c15(tier):
                         continue
                     p = {} if vis is None else {"vis": vis}
                     cfg = Config([("iter", {"mode": im}), ("range", p)])
-                    decls.append(("range", vis, False, ev, cfg.attr_lines()[0], "range", None, BODIES[g]))
+                    decls.append(("range", vis, False, ev, cfg.attr_text(), "range", None, BODIES[g]))
     jobs = []      # (decl index, site, kind, src, cfgs, externs, expect_ok)
     sib = {}       # decl index -> lib source
     for di, (f, vis, custom, ev, attr, name, sname, ebody) in enumerate(decls):
@@ -246,7 +246,7 @@ def c15(tier):
                 enum_txt = arch.replace("pub enum", "pub enum")
                 base = ("#![allow(warnings)]\npub mod inner {\n use enum_tools::EnumTools;\n #[derive(Clone, Copy, EnumTools)]\n #[enum_tools(%s)]\n %s\n"
                         " #[cfg(p_inner)] fn probe() { let _ = %s::%s; }\n}\n#[cfg(p_root)] fn probe() { let _ = inner::%s::%s; }\n"
-                        % (cfg.attr_lines()[0], enum_txt, owner, hname, owner, hname))
+                        % (cfg.attr_text(), enum_txt, owner, hname, owner, hname))
                 helper_cases.append((k, hname, cfg, base, "p_inner", True))
                 helper_cases.append((k, hname, cfg, base, "p_root", False))
     hv = e2.compile_many([{"src": c[3], "cfgs": [c[4]]} for c in helper_cases])
